@@ -12,7 +12,7 @@ sys.path.insert(0, os.path.join(VERIF, 'tools'))
 import xapi
 from props.c18 import Gen, core_corpus
 
-FINDINGS_FILE = os.path.join(VERIF, 'notes', 'proposed_findings', 'C19.txt')
+FINDINGS_FILE = None
 JAVA_SRC = ['Xraylib.java', 'compoundData.java', 'compoundDataBase.java', 'compoundDataNIST.java', 'radioNuclideData.java', 'Crystal_Struct.java', 'Crystal_Atom.java']
 REL_TOL = 1e-10
 # methods compared with a looser tolerance, and why (each entry is justified in notes/C19_REPORT.md)
